@@ -408,9 +408,25 @@ Ltac fwd4 :=
 Lemma step_preamble_ext r m r1 c : step_preamble st step_rec r m = Ok (r1, c) -> ext r r1.
 Proof. unfold step_preamble. intros H. inv_ok; fwd4; chain. Qed.
 
+Lemma step_transfer_leader_ext r m r' e : step_transfer_leader st step_rec r m = Ok (r', e) -> ext r r'.
+Proof.
+  unfold step_transfer_leader. intros H.
+  match type of H with bind ?x _ = _ => destruct x as [[r1 e1]|] eqn:E1; cbn [bind] in H; [|discriminate] end.
+  assert (M1 : ext r r1).
+  { destruct (r_state r);
+      [apply step_follower_ext in E1|apply step_candidate_ext in E1|apply step_leader_ext in E1|apply step_candidate_ext in E1]; exact E1. }
+  destruct (state_type_eqb (r_state r) StateLeader && self_transfer_aborts r m).
+  - cbn [fst snd] in H.
+    match type of H with bind ?x _ = _ => destruct x as [r2|] eqn:E2; cbn [bind] in H; [|discriminate] end.
+    inversion H; subst. apply applied_to_ext in E2. eapply ext_trans; eassumption.
+  - inversion H; subst. exact M1.
+Qed.
+
 Lemma step_dispatch_ext r m r' e : step_dispatch st step_rec r m = Ok (r', e) -> ext r r'.
 Proof.
-  unfold step_dispatch. intros H. inv_ok; fwd4; try solve [chain]; split_ifs; try solve [chain].
+  unfold step_dispatch. intros H. inv_ok;
+    try (match goal with E : step_transfer_leader _ _ _ _ = Ok _ |- _ => apply step_transfer_leader_ext in E; exact E end);
+    fwd4; try solve [chain]; split_ifs; try solve [chain].
   eapply ext_trans; [eassumption|apply reduce_uncommitted_ext].
 Qed.
 
@@ -451,7 +467,9 @@ Proof.
       - match type of E2 with bind ?x _ = _ => destruct x as [[r3 e3]|] eqn:ES end; cbn [bind] in E2; [|discriminate].
         inversion E2; subst; clear E2. cbn [fst]. apply step_ext in ES. chain.
       - inversion E2; subst. frame. }
-    destruct (state_type_eqb (r_state r2) StateLeader && _); inversion E1; subst; chain. }
+    destruct (state_type_eqb (r_state r2) StateLeader && _).
+    - unfold applied_to_top in E1. apply (applied_to_ext _ step_inner_ext) in E1. chain.
+    - inversion E1; subst. chain. }
   destruct (negb (state_type_eqb (r_state r1) StateLeader)); [inversion H; subst; exact M1|].
   destruct (r_heartbeat_timeout r1 <=? r_heartbeat_elapsed r1); [|inversion H; subst; exact M1].
   match type of H with bind ?x _ = _ => destruct x as [[r3 e3]|] eqn:ES end; cbn [bind] in H; [|discriminate].
